@@ -13,7 +13,10 @@
         bad     first failing condition of every rejected edit:
                 offsets | removed-non-whitespace | inserted-non-whitespace | shebang |
                 inside-token-or-comment | glue
-   finalnl <hexsrc> -> hex of final_newline (phase 9 model) *)
+   finalnl <hexsrc> -> hex of final_newline (phase 9 model)
+   phase <6|7|8|8orig|9> <hexsrc> [<toplevel line numbers, comma separated>]
+     -> hex of the output of the modelled phase of format.rs (coq/FormatPhases.v) on that text
+        (8 = current code, 8orig = before fix-5) *)
 open Mdl
 open Driver_core
 
@@ -103,4 +106,14 @@ let () = register "gapcheck" (fun args ->
 let () = register "finalnl" (fun args ->
     match args with
     | [h] -> ea_hex (final_newline (ea_src h))
+    | _ -> "error\targs")
+
+let () = register "phase" (fun args ->
+    let tops a = if a = "" || a = "-" then [] else List.map (fun x -> n_of_int (int_of_string x)) (String.split_on_char ',' a) in
+    match args with
+    | "6" :: h :: rest -> ea_hex (phase6 (tops (match rest with a :: _ -> a | [] -> "")) (ea_src h))
+    | "7" :: h :: _ -> ea_hex (phase7 (ea_src h))
+    | "8" :: h :: _ -> ea_hex (phase8 true (ea_src h))
+    | "8orig" :: h :: _ -> ea_hex (phase8 false (ea_src h))
+    | "9" :: h :: _ -> ea_hex (phase9 (ea_src h))
     | _ -> "error\targs")
